@@ -226,10 +226,15 @@ PROPS["C05"] = dict(
 PROPS["C15"] = dict(
     level="proof",
     lean_module="RefmtProofs.Props.C15",
-    theorems=[],
+    theorems=["Refmt.C15.readn1_refines", "Refmt.C15.readN_refines", "Refmt.C15.unread_refines", "Refmt.C15.client_independent",
+              "Refmt.C15.schedule_independent"],
     streams=[dict(name="rdops", gen="rdops"), dict(name="sched", gen="sched")],
     title="decoding does not depend on how the reader delivers bytes",
-    claim="(work in progress)",
+    claim="Theorems: for every data, chunking, legal number of empty reads and EOF-with-data, each reader operation of the "
+          "readerToScanner/ReadAtLeast model returns what the abstract cursor returns and leaves a state abstracting to the cursor's; "
+          "hence every client program over these operations (unread only after a successful byte read - the decoders' discipline) computes "
+          "the same result under any two schedules. The decoder models read only through the cursor interface (by construction, not "
+          "mechanically: stated in DESIGN). Tie: raw operation sequences and whole-document decodes under exhaustive splits.",
     rule_text="rdops: random and exhaustive-small sequences of raw reader operations (Readn1/Unreadn1/Readn/Readnzc) on "
               "shared.NewReader over scheduling io.Readers (all splits of 3 bytes with empty reads at every position, random schedules, "
               "EOF-with-data), compared with the scheduled-reader model (M) and the abstract cursor (S). sched: documents of both formats "
